@@ -1,6 +1,6 @@
 """Data for MANIFEST.json (edit here, then run tools_manifest.py)."""
 
-PYVC_PROPS = ["C16"]
+PYVC_PROPS = ["C08", "C16"]
 BOUNDED_PROPS: list[str] = []
 
 
@@ -19,6 +19,22 @@ def chk(pid, category, text, note, technique, design_ref):
 
 
 CHECKS = [
+    chk("C08", "proof",
+        "Every function of tel2puml/otel_to_pv/sequence_otel.py between a trace and its PV job, except the recursion itself, is under contract "
+        "and every enrolled obligation generated from the current source is discharged for all inputs (no bound on list lengths): ordering by "
+        "start time (sorted groups, sorted by first start, ValueError iff an empty group), the asynchronous rule as the spec function "
+        "chains() written from the HOWTO's 'chains of overlapping time windows' (loop invariant result == chains(prefix), running maximum == "
+        "maxend of everything seen; lemmas maxend_upper/attained/app proved by induction), prior-information grouping (no empty group, every "
+        "group homogeneous, one group per id, every child covered), root selection (unique parentless span), renaming (renamed iff a listed "
+        "child type is present, frame: no other span touched), stream->map conversion, and job assembly (one PV event per span in order, "
+        "job id / name / type / application copied, timestamp = unix_nano_to_pv_string(end), previousEventIds = the links computed by the "
+        "recursion). The same clause texts are evaluated at run time on the real functions: exhaustively on small scopes (all 1-3 sibling "
+        "interval configurations on a 5-point grid, all trees <= 4 spans) and on seeded random inputs.",
+        "Trusted / not covered: the recursion sequence_otel_event_ancestors is a pure symbol here (its own contract against the LINKS "
+        "specification is checked at run time on all small trees, bounded, not proved); order_groups' content clause (permutation of the "
+        "input) is stated, not discharged, and checked at run time only; sorted()/max()/dict/list builtins by trusted contracts (listed in "
+        "evidence); value semantics for the in-place list updates listed under alias_rule_sites; pyvc itself; z3/cvc5.",
+        "contract-based deductive verification (ast -> VCs -> z3/cvc5) + runtime contracts", "DESIGN.md 4/C08"),
     chk("C16", "proof",
         "Both converters are under contract and every obligation generated from the current source is discharged (z3, cvc5 on z3's unknowns): "
         "unix_nano_to_pv_string(n) == str_of(n // 1000) for every microsecond-aligned n in 1970..2100 (float division and CPython's "
@@ -41,7 +57,6 @@ NOT_APPLICABLE = [
     {"property_id": "C13", "reason": "needs a formal semantics of jq programs; contracts on string concatenation cannot express it (DESIGN 5)"},
     {"property_id": "C04", "reason": "check under construction in this round (not yet registered)"},
     {"property_id": "C06", "reason": "check under construction in this round (not yet registered)"},
-    {"property_id": "C08", "reason": "check under construction in this round (not yet registered)"},
     {"property_id": "C09", "reason": "check under construction in this round (not yet registered)"},
     {"property_id": "C10", "reason": "check under construction in this round (not yet registered)"},
     {"property_id": "C11", "reason": "check under construction in this round (not yet registered)"},
